@@ -38,7 +38,10 @@ Inductive binop :=
 | BPlus | BMinus | BMal | BDurch | BMod
 | BKleiner | BGroesser | BGleich | BUngleich
 | BUnd | BOder
-| BStelle.                                   (* l an der Stelle i *)
+| BStelle                                    (* l an der Stelle i *)
+| BVerkettet                                 (* a verkettet mit b *)
+| BAb                                        (* l ab dem i. Element *)
+| BBis.                                      (* l bis zum i. Element *)
 
 Inductive expr :=
 | ELit (l : lit)
@@ -49,6 +52,8 @@ Inductive expr :=
 | ECast (e : expr) (t : ty)                  (* e als t *)
 | EField (f : name) (e : expr)               (* f von e *)
 | ECall (f : name) (a : args)
+| ESlice (l i j : expr)                      (* l im Bereich von i bis j *)
+| EList (e : expr) (a : args)                (* eine Liste, die aus e, a.. besteht *)
 with args :=
 | ANil
 | ACons (e : expr) (a : args).
@@ -57,9 +62,14 @@ Inductive stmt :=
 | SVar (a : article) (t : ty) (x : name) (e : expr)
 | SConst (a : article) (x : name) (l : lit)
 | SAssign (x : name) (e : expr)
+| SAssignIdx (x : name) (i e : expr)         (* Speichere e in x an der Stelle i. *)
+| SAssignField (f x : name) (e : expr)       (* Speichere e in f von x. *)
 | SIf (c : expr) (th el : block)
 | SWhile (c : expr) (b : block)
 | SFor (a : article) (t : ty) (x : name) (from to : expr) (step : option expr) (b : block)
+| SForEach (a : article) (t : ty) (x : name) (e : expr) (b : block)    (* Für jede(n/s) t x in e, mache: *)
+| SRepeat (b : block) (n : expr)             (* Wiederhole: b  n Mal. *)
+| SDoWhile (b : block) (c : expr)            (* Mache: b  Solange c. *)
 | SBreak
 | SContinue
 | SReturn (e : option expr)
@@ -121,6 +131,16 @@ Definition numeric (t : ty) : bool :=
 
 Definition primitive (t : ty) : bool :=
   match t with TZahl | TKomma | TByte | TBool | TChar | TText => true | _ => false end.
+
+Fixpoint alen (a : args) : nat := match a with ANil => 0 | ACons _ r => S (alen r) end.
+
+Definition is_listb (t : ty) : bool := match t with TList _ => true | _ => false end.
+Definition is_text (t : ty) : bool := match t with TText => true | _ => false end.
+Definition textish (t : ty) : bool := match t with TText | TChar => true | _ => false end.
+(* list or Text: what can be indexed, sliced, measured, iterated *)
+Definition seqlike (t : ty) : bool := match t with TList _ | TText => true | _ => false end.
+Definition lelem (t : ty) : ty := match t with TList e => e | _ => t end.            (* ddptypes.GetListElementType *)
+Definition selem (t : ty) : ty := match t with TList e => e | _ => TChar end.        (* element of a list / character of a Text *)
 
 (* ---- block helpers ------------------------------------------------------------------------- *)
 Fixpoint block_app (a b : block) : block :=
